@@ -16,8 +16,8 @@ registration).  Every allocation goes through the oracle `Mem`; the theorems hol
 i.e. for the failure of the 1st, 2nd, … k-th request alone or persistently, and for any other pattern.
 `Mem.live` counts the blocks currently allocated, `Mem.refusals` the refused requests; `bufBlocks a` is 1
 if the array has a buffer.  The **start / registration / teardown paths** of the upper layers (network_read,
-network_write, network_accept, network_connect(_timeo), netbuf reader and writer, the set-up ladder of
-http_request) have the failure model `Model/AllocFail.lean` (last section of this file); what happens to such a
+network_write, network_accept, network_connect(_timeo), netbuf reader and writer, the set-up ladders of
+http_request and https_request through http_request2) have the failure model `Model/AllocFail.lean` (last section of this file); what happens to such a
 request *after* it was started (callbacks, the HTTP response parser) and the asprintf users are covered by fault
 enumeration against the monitor only (see notes/C14.md).
 -/
@@ -292,6 +292,9 @@ theorem upper_failure_reported (w : World) (op : Op) (h : Inv w) (hs : isRelease
 example : (stepR wThird (.read 5)).2.m.refusals ≠ wThird.m.refusals ∧ (stepR wThird (.read 5)).1 = .fail := by decide
 example : (stepR wThird (.connect [.failNow, .success] (some 1000) 7)).1 = .fail := by decide
 example : (stepR wRefuse (.nbrInit 3)).1 = .fail ∧ (stepR wRefuse (.http [.success] 47 9)).1 = .fail := by decide
+/-- `https_request`: the third request (strdup, cookie, *request header*) is refused: NULL -/
+example : (stepR wThird (.https [.success] 47 9 9)).2.m.refusals ≠ wThird.m.refusals ∧
+    (stepR wThird (.https [.success] 47 9 9)).1 = .fail := by decide
 
 /-- **(b) A failed call leaves nothing registered and loses nothing**: the registry is exactly what it was, no
 block was freed twice, the invariant holds (so every live block is still owned by an object); for the calls
@@ -306,6 +309,10 @@ theorem upper_failure_leaves_nothing (w : World) (op : Op) (h : Inv w) (hf : (st
 
 example : (stepR wThird (.read 5)).1 = .fail ∧ (stepR wThird (.read 5)).2.live = [] ∧
     (stepR wThird (.read 5)).2.reads = [] ∧ (EvReg.registry (stepR wThird (.read 5)).2.ev).net = [] := by decide
+/-- `https_request` whose request-header allocation is refused: host name and cookie are gone again, each freed once -/
+example : (stepR wThird (.https [.success] 47 9 9)).1 = .fail ∧ (stepR wThird (.https [.success] 47 9 9)).2.live = [] ∧
+    (stepR wThird (.https [.success] 47 9 9)).2.https = [] ∧ (stepR wThird (.https [.success] 47 9 9)).2.bad = 0 ∧
+    (stepR wThird (.https [.success] 47 9 9)).2.m.live = 0 := by decide
 
 /-- **A failure of a call within its contract comes from a refused request** (the descriptor's slot is free,
 the object named exists and is idle: `Ready`) — the L1 rule of the monitor. -/
@@ -400,6 +407,14 @@ theorem upper_exit_handlers_free_everything (m : Mem) (hm : m.live = 0) (ops : L
     (atexitAll (teardown (run { m := m } ops))).live = [] ∧ (atexitAll (teardown (run { m := m } ops))).cache = [] :=
   run_teardown_atexit_no_leak m hm ops
 
+/-- an HTTPS request that was started owns its host name (4 blocks: host name, cookie, header, connect cookie);
+`http_request_cancel` — here through `teardown` — frees it, and after the exit handlers nothing is allocated -/
+example : (run wGrant [.https [.success] 47 9 9]).live.map (·.site) = [.connCookie, .httpHead, .httpCookie, .httpsHost] ∧
+    (run wGrant [.https [.success] 47 9 9]).https = [⟨1, 2, some 3, some 0⟩] ∧
+    (teardown (run wGrant [.https [.success] 47 9 9])).live = [] ∧
+    (teardown (run wGrant [.https [.success] 47 9 9])).bad = 0 ∧
+    (atexitAll (teardown (run wGrant [.https [.success] 47 9 9]))).m.live = 0 := by decide
+
 /-- the same seven calls as below, then everything released and the exit handlers run: 18 library blocks were live -/
 example : (run wThird [.read 5, .read 5, .nbrInit 6, .nbrWait 6 100, .nbwInit 7, .nbwWrite 11 10, .http [.success] 47 9]).m.live = 18 ∧
     (atexitAll (teardown (run wThird [.read 5, .read 5, .nbrInit 6, .nbrWait 6 100, .nbwInit 7, .nbwWrite 11 10, .http [.success] 47 9]))).m.live = 0 := by
@@ -410,6 +425,50 @@ oracle that refuses the third request: six objects' worth of blocks before, noth
 example : (run wThird [.read 5, .read 5, .nbrInit 6, .nbrWait 6 100, .nbwInit 7, .nbwWrite 11 10, .http [.success] 47 9]).live.length = 11 ∧
     (teardown (run wThird [.read 5, .read 5, .nbrInit 6, .nbrWait 6 100, .nbwInit 7, .nbwWrite 11 10, .http [.success] 47 9])).live = [] := by
   decide
+
+/-! ### Ownership of the host name `https_request` duplicates -/
+
+/-- **On failure of `http_request2` the caller still owns `sslhost`, and frees it exactly once.**
+`https_request` duplicates the host name (`strdup`, one more request the oracle may refuse) and passes the copy to
+`http_request2`, which stores the pointer in its cookie.  For every world satisfying `Inv`, every oracle and all
+arguments:
+* if the `strdup` was granted and `http_request2` then fails — at its cookie, at the request header, or anywhere
+  inside `network_connect` — the copy is **still allocated** when it returns (`findId … ≠ none`: none of the
+  ladder's rungs has released it) and no block has been released twice or without being live so far (`bad`
+  unchanged);
+* consequently `https_request`'s own `free(sslhost)` is the first and only release of that block: after the failed
+  call `live`, every table and the registry are exactly as before (`Same`), `bad = 0` and `Inv` holds (so, by
+  `upper_exit_handlers_free_everything`, nothing of it is left at exit).
+(A ladder that gave the host name up as well — e.g. by calling `http_request_cancel` on the half-built cookie —
+would make the second release hit a block that is not live: `bad = 1`, refuting both parts.) -/
+theorem upper_https_failure_host_freed_once (w : World) (addrs : List Connect.AddrOutcome) (headlen s hostlen : Nat)
+    (h : Inv w) :
+    ((w.m.malloc (hostlen + 1)).1 = true →
+      (httpRequest2 { w with m := (w.m.malloc (hostlen + 1)).2, live := ⟨w.m.n, .httpsHost, hostlen + 1⟩ :: w.live }
+        addrs headlen s (some w.m.n)).1 = none →
+      findId (httpRequest2 { w with m := (w.m.malloc (hostlen + 1)).2, live := ⟨w.m.n, .httpsHost, hostlen + 1⟩ :: w.live }
+        addrs headlen s (some w.m.n)).2.live w.m.n ≠ none ∧
+      (httpRequest2 { w with m := (w.m.malloc (hostlen + 1)).2, live := ⟨w.m.n, .httpsHost, hostlen + 1⟩ :: w.live }
+        addrs headlen s (some w.m.n)).2.bad = w.bad) ∧
+    ((httpsRequest w addrs headlen s hostlen).1 = none →
+      Same w (httpsRequest w addrs headlen s hostlen).2 ∧ (httpsRequest w addrs headlen s hostlen).2.bad = 0 ∧
+      Inv (stepR w (.https addrs headlen s hostlen)).2) := by
+  refine ⟨fun hm hf => httpRequest2_failure_keeps_host w addrs headlen s hostlen h.toInv0 hm hf, fun hf => ?_⟩
+  obtain ⟨hi, _, hsame, _⟩ := httpsRequest_spec w addrs headlen s hostlen h.toInv0
+  have hs := hsame hf
+  exact ⟨hs, hi.bad0, stepR_inv w (.https addrs headlen s hostlen) h⟩
+
+/-- the strdup is granted, the cookie is granted, the request header (third request) is refused: `http_request2`
+returns NULL with the host name (block 0) still allocated; `https_request` then frees it -/
+example : (wThird.m.malloc (9 + 1)).1 = true ∧
+    (httpRequest2 { wThird with m := (wThird.m.malloc (9 + 1)).2, live := [⟨0, .httpsHost, 10⟩] } [.success] 47 9 (some 0)).1 = none ∧
+    (httpRequest2 { wThird with m := (wThird.m.malloc (9 + 1)).2, live := [⟨0, .httpsHost, 10⟩] } [.success] 47 9 (some 0)).2.live =
+      [⟨0, .httpsHost, 10⟩] ∧
+    (httpsRequest wThird [.success] 47 9 9).1 = none ∧ (httpsRequest wThird [.success] 47 9 9).2.live = [] := by decide
+/-- … and likewise when it is `network_connect` that fails (fourth request, the connect cookie) -/
+example : (httpsRequest { m := { f := fun n _ => n != 3 } } [.success] 47 9 9).1 = none ∧
+    (httpsRequest { m := { f := fun n _ => n != 3 } } [.success] 47 9 9).2.bad = 0 ∧
+    (httpsRequest { m := { f := fun n _ => n != 3 } } [.success] 47 9 9).2.m.live = 0 := by decide
 
 /-! ## The executables: `pmodel af` = `Model.AfStep.stepOp`, `pmodel upmodel` = `Model.UpStep.stepOp`
 
@@ -665,7 +724,7 @@ example : Proofs.UpMonSound.UInv ({} : UpStep.S) := Proofs.UpMonSound.uinv_init
 /-- `WF` is trivial for an op that is not a connect -/
 example (s : UpStep.S) : Proofs.UpMonSound.WF s (.start .read 0 0) :=
   ⟨fun a tm l fd h => by
-    rcases h with h | h <;> (simp only [UpStep.callOf] at h; split at h <;> (try split at h) <;> cases h)⟩
+    rcases h with h | h | ⟨hl, h⟩ <;> (simp only [UpStep.callOf] at h; split at h <;> (try split at h) <;> cases h)⟩
 /-- the monitor is not trivial: `fail rf=0` is rejected -/
 example : (Spec.UpMon.monStep () .call { head := .fail, ntoks := 2, rf := some 0 }).2 ≠ none ∧
     (Spec.UpMon.monStep () .call { head := .fail, ntoks := 2, rf := some 1 }).2 = none := by decide
